@@ -147,11 +147,53 @@ def run(prop, seed, budget, ctx):
             else: want = inner
             got = outcome(lambda: deserialize(T, d))
             if got != want: fail("deserialization-square", desc=desc, datum=repr(d), got=show(got), want=show(want))
+    # generic conversions: a wrapper G[T] built from T itself (a bare type variable as source), from List[T], and the
+    # serializer G[T] -> T; the specialised target substitutes the variable, so deserialize(G[int], d) rejects exactly what
+    # deserialize(int, d) rejects and the schemas are those of the substituted source
+    import typing
+    from typing import TypeVar, Generic
+    for i in range(30 * budget):
+        T = TypeVar("T")
+        import types as _types
+        G = _types.new_class(f"G{i}", (Generic[T],), {}, lambda ns: ns.update({
+            "__init__": lambda self, x: setattr(self, "x", x), "__eq__": lambda a, b: type(a) is type(b) and a.x == b.x,
+            "__repr__": lambda self: f"G({self.x!r})", "__hash__": None}))
+        shape = ["bare", "list", "optional"][i % 3]
+        src_of = {"bare": lambda a: a, "list": lambda a: List[a], "optional": lambda a: Optional[a]}[shape]
+        def wrap(x, G=G): return G(x)
+        def unwrap(g): return g.x
+        wrap.__annotations__ = {"x": src_of(T), "return": G[T]}; unwrap.__annotations__ = {"g": G[T], "return": src_of(T)}
+        mode = rnd.choice(["registered", "dynamic", "field"])
+        if mode == "registered": deserializer(wrap); serializer(unwrap)
+        kw_d = {"conversion": wrap} if mode == "dynamic" else {}
+        kw_s = {"conversion": unwrap} if mode == "dynamic" else {}
+        desc = {"generic": shape, "mode": mode}
+        for arg, pool in ((int, [1, "a", None, [1], [1, "b"], 1.5, True]), (str, ["s", 2, None, ["x"], [3]])):
+            if mode == "field":
+                from apischema.metadata import conversion as conv_md
+                H = dataclass(type(f"H{i}_{arg.__name__}", (), {"__annotations__": {"g": G[arg]}, "g": field(metadata=conv_md(deserialization=wrap, serialization=unwrap))}))
+                tgt, wrapd, unwrapv = H, (lambda d: {"g": d}), (lambda v: v.g.x)
+            else:
+                tgt, wrapd, unwrapv = G[arg], (lambda d: d), (lambda v: v.x)
+            for d in pool:
+                evaluations += 1; distinct.add(("generic", shape, mode, arg.__name__, repr(d)))
+                want = outcome(lambda: deserialize(src_of(arg), d))
+                got = outcome(lambda: deserialize(tgt, wrapd(d), **kw_d))
+                if want[0] != got[0] or (want[0] == "ok" and unwrapv(got[1]) != want[1]):
+                    fail("deserialization-square", desc=desc, target=f"G[{arg.__name__}]", datum=repr(d), got=show(got), want=show(want))
+                if want[0] == "ok":
+                    back = outcome(lambda: serialize(tgt, got[1], **kw_s)) if got[0] == "ok" else None
+                    exp = outcome(lambda: serialize(src_of(arg), want[1]))
+                    if back is not None and exp[0] == "ok" and back != ("ok", wrapd(exp[1])): fail("serialization-square", desc=desc, target=f"G[{arg.__name__}]", got=show(back), want=show(exp))
+            if mode != "field":
+                ds = outcome(lambda: deserialization_schema(G[arg], with_schema=False, **kw_d)); ws = outcome(lambda: deserialization_schema(src_of(arg), with_schema=False))
+                if ds != ws: fail("schema-of-the-target-differs-from-the-schema-of-the-source", desc=desc, target=f"G[{arg.__name__}]", got=show(ds), want=show(ws))
     return {"evaluations": evaluations, "distinct_nontrivial": len(distinct),
             "rule": "fresh wrapper classes with a deserializer S -> W and a serializer W -> S over six source types, registered or dynamic, 40% of the "
                     "converters raising ValueError under catch_value_error, 30% of the registered ones with a second deserializer; every datum of a "
                     "per-source pool (valid and invalid); four-level class hierarchies with a serializer at the root and one (inherited or not) below it; "
-                    "chains int -> S -> T with a catching outer converter and a catching or non-catching inner one; non-trivial = every case (a conversion is always in effect); distinct by (source, mode, datum)",
+                    "chains int -> S -> T with a catching outer converter and a catching or non-catching inner one; generic wrappers G[T] converted from T / List[T] / Optional[T] "
+                    "(registered, dynamic, field-level) specialised at int and str; non-trivial = every case (a conversion is always in effect); distinct by (source, mode, datum)",
             "samples": samples, "histograms": dict(hist), "failures": failures}
 
 
